@@ -237,3 +237,17 @@ def fail_closed(stmts: list[ast.stmt]) -> bool:
                 continue
             return fail_closed(node.orelse)
     return False
+
+
+def unconditional_stmt(fn, pred):
+    """first top-level statement of fn satisfying pred that is reached on every call: only simple assignments /
+    docstrings / other asserts may precede it (no branch, loop, return, raise, try).  -> stmt or None"""
+    for st in fn.body:
+        if pred(st):
+            return st
+        if isinstance(st, (ast.Assign, ast.AnnAssign, ast.AugAssign, ast.Assert, ast.Pass, ast.Global, ast.Nonlocal, ast.Import, ast.ImportFrom)):
+            continue
+        if isinstance(st, ast.Expr) and isinstance(st.value, ast.Constant):
+            continue
+        return None
+    return None
